@@ -414,7 +414,11 @@ OnOut(h, pkt) ==
       \* C07: a request packet without (or with a zero) identifier
       h1b == IF d.st # "ok" /\ Len(h1a.v) > Len(h0.v) /\ ZeroId(pkt)
              THEN Viol(Tick(h1b1, "C07"), "C07", "a PUBLISH / SUBSCRIBE / UNSUBSCRIBE carries identifier 0 (or none)") ELSE h1b1
-      h1 == IF d.st # "ok" /\ Len(h1a.v) > Len(h0.v) THEN [C17Owed(h, h1b) EXCEPT !.taint = 2] ELSE h1a
+      \* C19: a CONNECT that is not well-formed because the configured will carries properties no will may carry
+      h1c == IF d.st # "ok" /\ Len(h1a.v) > Len(h0.v) /\ pkt[1] \div 16 = CONNECT /\ h.cfg.haswill
+                /\ ~ReqPropsOk(h.cfg.will.props, CtxWill)
+             THEN Viol(Tick(h1b, "C19"), "C19", "a will with illegal properties was accepted and sent") ELSE h1b
+      h1 == IF d.st # "ok" /\ Len(h1a.v) > Len(h0.v) THEN [C17Owed(h, h1c) EXCEPT !.taint = 2] ELSE h1a
       h2 == Check(h1, (h.wn = 0) = (pkt[1] \div 16 = CONNECT), "C01",
                   "CONNECT must be the first and only the first packet on a transport")
       \* D2: a disconnect() whose future was dropped after its DISCONNECT had reached the wire
@@ -944,6 +948,9 @@ DeathTrigger(h, e) ==
   \/ (r.k = "err" /\ r.v \in {"Transport", "Disconnected"})
   \/ (r.k = "err" /\ r.v = "InvalidPacket" /\ h.op.name \in {"poll", "recv", "drive"})
   \/ (h.op.name = "disconnect" /\ r.k = "ok")
+  \* "the transport is finished after a DISCONNECT regardless of the write outcome" -- also when the transport
+  \* took nothing of it (write-zero runs)
+  \/ (h.op.name = "disconnect" /\ r.k = "err" /\ r.v = "WriteZero" /\ ~e.obs.live)
   \/ (r.k = "err" /\ r.v = "PacketTooLarge" /\ h.op.name \in {"poll", "recv", "drive"} /\ h.op.nofit /\ ~e.obs.live)
 
 StepRet(h, e) ==
